@@ -402,8 +402,33 @@ func genC17(r *Rng, idx int, tier string) *Scenario {
 	if r.Chance(1, 6) {
 		burstAt, burstLen = r.Intn(n), Pick(r, 15, 16, 17, 32, 40)
 	}
+	soakAt := -1
+	if idx%1000 == 999 {
+		soakAt = r.Intn(n) // a long-lived SA: more than 2^16 operations of one kind in a row somewhere in the history
+	}
 	for i := 0; i < n; i++ {
 		x := r.Intn(total)
+		if i == soakAt {
+			if len(sent) == 0 {
+				send("twin", false)
+			}
+			k := r.Intn(len(sent))
+			cnt := 1<<16 + r.Intn(40)
+			switch r.Intn(3) {
+			case 0: // flood of forgeries, no genuine message in between
+				sc.Steps = append(sc.Steps, Step{Op: "deliver", Dgram: sent[k], To: other(froms[k]), Obj: "long", N: cnt,
+					Fault: &Fault{Kind: "bitflip", Byte: 28 + r.Intn(30), Bit: r.Intn(8)}})
+			case 1: // the same genuine datagram again and again (retransmissions)
+				sc.Steps = append(sc.Steps, Step{Op: "deliver", Dgram: sent[k], To: other(froms[k]), Obj: "long", N: cnt})
+			default: // a busy sender
+				id := next
+				next++
+				sc.Steps = append(sc.Steps, Step{Op: "send", SA: 0, Dgram: id, From: Pick(r, "I", "R"), Msg: genSimpleMsg(r, 2), Rand: &RandScript{Seed: r.U64()}, Obj: "long", N: cnt})
+				sent = append(sent, id)
+				froms = append(froms, sc.Steps[len(sc.Steps)-1].From)
+			}
+			continue
+		}
 		if i == burstAt && burstLen > 0 {
 			// a run of consecutive forgeries with no accepted message in between (lock-out counters)
 			if len(sent) == 0 {
